@@ -7,6 +7,8 @@ CONSTANTS
   AllowCancel = FALSE
   HasNotify = FALSE
   ShutFirst = FALSE
+  Forwarders = {}
+  ForwardRewinds = FALSE
 INVARIANTS Correlated DistinctIds NotifyOnlyToSubscriber ChanAtMostOne NoResidue WaiterHasFuture
 
 CHECK_DEADLOCK FALSE
